@@ -193,7 +193,7 @@ class _Gen:
                     return f"({r.choice([1, 2, 5])} - {L.var}) % {c}"
                 if form < 0.55 and L.hi.sym is None:
                     # floor division with a possibly negative numerator, shifted into range
-                    s_ = r.choice([1, 3, 5])
+                    s_ = r.choice([1, 2, 3, 4, 5, 6, 8])
                     lo_v = (L.lo - s_) // c
                     hi_v = (L.hi.c - 1 - s_) // c
                     if hi_v - lo_v <= m - 1:
@@ -203,6 +203,15 @@ class _Gen:
                     # negative numerators under % (floor-mod is still in range)
                     return f"({L.var} - {shift}) % {c}"
                 return f"({L.var} + {shift}) % {c}"
+        if self.negidx and r.random() < self.kn.p_quasi:
+            # the possibly negative index argument (-6..6) under floor division / modulo
+            m = self.ext_min(E)
+            c = r.choice([2, 3, 4])
+            lo_v, hi_v = (-6) // c, 6 // c
+            if r.random() < 0.5 and hi_v - lo_v <= m - 1:
+                return f"{self.negidx} / {c} + {-lo_v}"
+            if c <= m:
+                return f"{self.negidx} % {c}"
         # constants
         m = self.ext_min(E)
         choices = [0, m - 1] + ([1] if m > 1 else [])
@@ -334,6 +343,7 @@ class _Gen:
         n0 = self.nstmts
         want = self.rng.randint(1, max(1, min(3, budget)))
         saved_bufs = len(self.bufs)
+        outer_base, self.block_base = getattr(self, "block_base", 0), saved_bufs
         for _ in range(want):
             if self.nstmts - n0 >= budget:
                 break
@@ -343,6 +353,7 @@ class _Gen:
             self.nstmts += 1
         # temporaries go out of scope
         del self.bufs[saved_bufs:]
+        self.block_base = outer_base
         return self.nstmts - n0
 
     def stmt(self, ind, depth, budget):
@@ -560,9 +571,24 @@ class _Gen:
             return False
         self.emit(ind, f"{name} = {b.name}[{', '.join(acc)}]")
         self.nstmts += 1
-        self.bufs.append(Buf(name, shape, "win"))
+        nb_ = Buf(name, shape, "win")
+        nb_.src = b
+        self.bufs.append(nb_)
+        if b.kind in ("tmp", "win") and r.random() < 0.5:
+            # from here on the storage is reached through the new window only (sources
+            # declared in this block are retired): the last use of an allocation is then a use
+            # through a window, possibly a window of a window
+            base = getattr(self, "block_base", 0)
+            chain = []
+            cur = b
+            while cur is not None and cur.kind in ("tmp", "win"):
+                chain.append(cur)
+                cur = getattr(cur, "src", None)
+            for k in range(base, len(self.bufs) - 1):
+                if any(self.bufs[k] is c_ for c_ in chain):
+                    self.bufs[k] = nb_
         # use it right away (write or read)
-        self.assign(ind, target=self.bufs[-1])
+        self.assign(ind, target=nb_)
         return True
 
     def config_stmt(self, ind):
